@@ -81,7 +81,7 @@ Definition satisfies (v : pyval) : Prop := term_matches lit re_search tm v = Ok 
 (* what a report may be for, under the key/value options *)
 Definition justified (o : opts) (d : node) (h : hit) : Prop :=
   match h_kind h with
-  | HVal => o_values o = true /\ exists v, value_place d (h_loc h) v /\ satisfies v
+  | HValue => o_values o = true /\ exists v, value_place d (h_loc h) v /\ satisfies v
   | HKey => o_keys o = true /\ exists k, key_place d (h_loc h) k /\ satisfies k
   | HMember => exists k, member_place d (h_loc h) k /\ satisfies k
   | _ => False
